@@ -4,6 +4,7 @@ import ast
 from .. import astutil as A
 from .. import paths as P
 from ..selftest.runner import M, TW, V
+from . import common as K
 from .c06 import descent_names, check_negative_guard
 
 PROPERTY = "C11"
